@@ -24,6 +24,7 @@ pub mod h1;
 pub mod third;
 
 pub fn run(prop: &str, opts: &Opts) -> bool {
+    crate::noise::init(opts.seed);
     match prop {
         "c01" => c01::run(opts),
         "c02" => c02::run(opts),
